@@ -1,6 +1,7 @@
 (* Model of the BlockFilterHashes handler: src/protocols/filter/components/block_filter_hashes_process.rs (execute)
    and LatestBlockFilterHashes::update_latest_block_filter_hashes (src/protocols/light_client/peers.rs), as repaired
-   (start + len is a checked addition; a message shorter than the stored overlap appends nothing).
+   (start + len is a checked addition; a message shorter than the stored overlap appends nothing; hashes of a cached
+   range are only accepted when they reach - and match - the upper check point).
    Filter hashes are numbers (the harness interns the 32-byte values).  Result codes: 0 = no ban (OK or Ignore),
    481 = BlockFilterHashesIsEmpty, 482 = BlockFilterHashesIsUnexpected; every slice / index of the code that is not
    guarded by an explicit check is a Panic site here. *)
@@ -87,13 +88,14 @@ Definition update_cached (cn nn ccp ncp : N) (cached : list N) (start parent : N
   | inl c => Ok (inl c)
   | inr _ =>
     let end_number := start + len hs - 1 in
+    (* hashes between two check points can only be verified by the upper one: nothing is cached before they reach it
+       (repair of the unanchored cached hashes) *)
+    if end_number <? nn then Ok (inl 0) else
     let* cp_ok :=
-      if nn <? end_number then
-        match nthN hs (len hs - (end_number - nn) - 1) with
-        | None => Panic S_FH_NEXT_CP
-        | Some h => Ok (if ncp =? h then inr tt else inl C_HASHES_UNEXPECTED)
-        end
-      else Ok (inr tt) in
+      match nthN hs (len hs - (end_number - nn) - 1) with
+      | None => Panic S_FH_NEXT_CP
+      | Some h => Ok (if ncp =? h then inr tt else inl C_HASHES_UNEXPECTED)
+      end in
     match cp_ok with
     | inl c => Ok (inl c)
     | inr _ =>
@@ -101,8 +103,8 @@ Definition update_cached (cn nn ccp ncp : N) (cached : list N) (start parent : N
       if len cached <? offset then Panic S_FH_OFFSET else
       let tail := dropN offset cached in
       if zip_differs tail hs then Ok (inl 0) else
-      let fresh := dropN (len tail) (if nn <? end_number then takeN (len hs - (end_number - nn)) hs else hs) in
-      Ok (inr (cached ++ fresh, if end_number <? nn then Some (end_number + 1) else None))
+      let fresh := dropN (len tail) (takeN (len hs - (end_number - nn)) hs) in
+      Ok (inr (cached ++ fresh, None))
     end
   end.
 
